@@ -274,6 +274,14 @@ def cases(draw: Any) -> Dict[str, Any]:
     req = draw(G.request_spec(form='origin', host=b'front.test', framings=('none', 'cl'), max_body=200, max_headers=5,
                               versions=(b'HTTP/1.1',), methods=st.sampled_from([b'GET', b'POST', b'PUT', b'DELETE', b'PATCH'])))
     req['target'] = draw(st.sampled_from(PATHS)).encode()
+    if draw(st.integers(0, 4)) == 0:
+        # an upgrade proposal (what a websocket client sends first): routed and forwarded like any other request - the reverse
+        # proxy does not take the upgrade itself
+        names = {h[0].lower() for h in req['headers']}
+        for h in ([b'Connection', b'Upgrade', 0], [b'Upgrade', b'websocket', 0], [b'Sec-WebSocket-Key', b'dGhlIHNhbXBsZSBub25jZQ==', 0],
+                  [b'Sec-WebSocket-Version', b'13', 0]):
+            if h[0].lower() not in names:
+                req['headers'].append(h)
     raw_len = len(G.render(req))
     return {'table': table, 'req': req, 'rewrite': draw(st.booleans()),
             'segs': draw(st.lists(st.integers(1, max(2, raw_len)), max_size=3)),
@@ -289,6 +297,8 @@ def run_shard(spec: Dict[str, Any], seed: int, acc: Any) -> None:
     def chk(c: Dict[str, Any]) -> List[Any]:
         vs, info = evaluate(c)
         labs = ['matches:%d' % min(info['matches'], 3), 'routes:%d' % info['nroutes'], 'rewrite:%s' % c['rewrite']]
+        if any(h[0].lower() == b'upgrade' for h in c['req']['headers']):
+            labs.append('upgrade-proposal')
         if info.get('https_observed'):
             labs.append('https-upstream-port-observed')
         if info.get('inconclusive'):
